@@ -720,6 +720,87 @@ Proof.
   change (out (set_xrow ?x ?r)) with (out x). rewrite P2. unfold ref_print. cbn [fst]. unfold texts.
   rewrite <- (region_slen _ _ _ _ _ _ _ _ E). rewrite skipn_map, firstn_map. reflexivity.
 Qed.
+
+Lemma cp_range l (b e : Z) : 0 <= b <= e -> lbuf_cp l (Z.to_nat b) (Z.to_nat e) = ref_range (map ltxt (lns l)) b e.
+Proof.
+  intro H. unfold lbuf_cp, ref_range. rewrite skipn_map, firstn_map. replace (Z.to_nat e - Z.to_nat b)%nat with (Z.to_nat (e - b)) by lia.
+  reflexivity.
+Qed.
+
+Theorem put_refines loc arg s b e s1 buf : ex_region rvalid rfind loc s = (false, b, e, s1) ->
+  reg_special (REG arg) = false -> reg_get s (REG arg) = Some buf ->
+  let s' := fst (ec_put rvalid rfind loc arg s) in
+  (texts s', xrow s') = ref_put (texts s) b e (split_lines buf).
+Proof.
+  intros E Hsp Hg. pose proof (region_bounds _ _ _ _ _ _ _ E) as (B1 & B2 & B3). pose proof (region_texts _ _ _ _ _ _ E) as T.
+  assert (L : slen s1 = slen s) by (unfold slen; rewrite (region_slen _ _ _ _ _ _ _ _ E); reflexivity).
+  unfold ec_put. rewrite Hsp, Hg, E. cbn [andb fst xrow set_xrow]. change (texts (set_xrow ?x ?r)) with (texts x).
+  assert (TE : texts (edit s1 (Some buf) e e) = splice (Z.to_nat e) (Z.to_nat e) (split_lines buf) (texts s)).
+  { rewrite texts_edit by lia. rewrite T. reflexivity. }
+  rewrite TE. unfold ref_put. f_equal. rewrite !slen_texts, TE.
+  assert (Hlen : e <= Z.of_nat (length (texts s))) by (rewrite <- T, <- slen_texts; exact B2).
+  unfold clampz. rewrite splice_length by lia. lia.
+Qed.
+
+Theorem read_refines (readfile : bytes -> option bytes) (curpath : bytes) loc arg s b e s1 data :
+  ex_region rvalid rfind loc s = (false, b, e, s1) ->
+  negb (plain_arg arg) || (hd0 arg =? 33)%N = false ->
+  readfile (match arg with [] => curpath | _ => arg end) = Some data ->
+  let s' := fst (ec_read rvalid rfind readfile curpath loc arg s) in
+  (texts s', xrow s') = ref_read (texts s) b e (split_lines data) /\ out s' = OMsg M_READ :: out s1.
+Proof.
+  intros E Hp Hr. pose proof (region_bounds _ _ _ _ _ _ _ E) as (B1 & B2 & B3). pose proof (region_texts _ _ _ _ _ _ E) as T.
+  assert (L : slen s1 = slen s) by (unfold slen; rewrite (region_slen _ _ _ _ _ _ _ _ E); reflexivity).
+  unfold ec_read. rewrite Hp, E, Hr. cbn [andb fst xrow set_xrow emit out].
+  change (texts (emit ?x ?o)) with (texts x). change (texts (set_xrow ?x ?r)) with (texts x).
+  set (pos := if slen s1 =? 0 then 0 else e).
+  assert (Hpos : 0 <= pos <= slen s1) by (unfold pos; destruct (slen s1 =? 0) eqn:Z0; lia).
+  assert (TE : texts (edit s1 (Some data) pos pos) = splice (Z.to_nat pos) (Z.to_nat pos) (split_lines data) (texts s)).
+  { rewrite texts_edit by lia. rewrite T. reflexivity. }
+  split; [|reflexivity]. rewrite TE. unfold ref_read. rewrite <- slen_texts, <- L. fold pos. f_equal.
+  assert (Hlen : pos <= Z.of_nat (length (texts s))) by (rewrite <- T, <- slen_texts; lia).
+  rewrite !slen_texts, TE, T. rewrite splice_length by lia. lia.
+Qed.
+
+Theorem yank_refines loc arg s b e s1 : ex_region rvalid rfind loc s = (false, b, e, s1) -> slen s <> 0 -> ex_zero loc b e = false ->
+  let s' := fst (ec_yank rvalid rfind loc arg s) in
+  texts s' = texts s /\ xrow s' = xrow s1 /\ regs s' = reg_put (regs s1) (REG arg) (ref_range (texts s) b e).
+Proof.
+  intros E Hn Hz. pose proof (region_bounds _ _ _ _ _ _ _ E) as (B1 & B2 & B3). pose proof (region_texts _ _ _ _ _ _ E) as T.
+  assert (L : slen s1 = slen s) by (unfold slen; rewrite (region_slen _ _ _ _ _ _ _ _ E); reflexivity).
+  unfold ec_yank. rewrite E, Hz, L. cbn [orb]. destruct (slen s =? 0) eqn:Z0; [lia|]. cbn [fst].
+  unfold ex_yank. split; [exact T|]. split; [reflexivity|]. cbn [regs set_regs]. rewrite cp_range by lia. rewrite <- T. reflexivity.
+Qed.
+
+(* delete also stores what it removes *)
+Theorem delete_regs loc arg s b e s1 : ex_region rvalid rfind loc s = (false, b, e, s1) -> slen s <> 0 -> ex_zero loc b e = false ->
+  regs (fst (ec_delete rvalid rfind loc arg s)) = reg_put (regs s1) (REG arg) (ref_range (texts s) b e).
+Proof.
+  intros E Hn Hz. pose proof (region_bounds _ _ _ _ _ _ _ E) as (B1 & B2 & B3). pose proof (region_texts _ _ _ _ _ _ E) as T.
+  assert (L : slen s1 = slen s) by (unfold slen; rewrite (region_slen _ _ _ _ _ _ _ _ E); reflexivity).
+  unfold ec_delete. rewrite E, Hz, L. cbn [orb]. destruct (slen s =? 0) eqn:Z0; [lia|]. cbn [fst].
+  unfold ex_yank, edit. cbn [regs set_xrow set_lb set_regs lb]. rewrite cp_range by lia. rewrite <- T. reflexivity.
+Qed.
+
+Lemma nth_upd_same {A} : forall (l : list A) k v d, (k < length l)%nat -> nth k (upd k v l) d = v.
+Proof. induction l as [|x l IH]; intros k v d H; [cbn in H; lia|]. destruct k; cbn [upd nth]; [reflexivity | apply IH; cbn in H; lia]. Qed.
+
+Theorem mark_refines loc arg s b e s1 k : ex_region rvalid rfind loc s = (false, b, e, s1) -> ex_zero loc b e = false ->
+  markidx (hd0 arg) = Some k -> (k < length (marks (lb s)))%nat ->
+  let s' := fst (ec_mark rvalid rfind loc arg s) in
+  texts s' = texts s /\ xrow s' = xrow s1 /\ nth k (marks (lb s')) (-1, None) = (e - 1, ghost_at (lns (lb s)) (e - 1)).
+Proof.
+  intros E Hz Hk Hl. pose proof (region_slen _ _ _ _ _ _ _ _ E) as R.
+  unfold ec_mark. rewrite E, Hz. cbn [orb fst]. unfold texts. cbn [lb set_lb xrow]. rewrite lbuf_mark_lns, R.
+  split; [reflexivity|]. split; [reflexivity|]. unfold lbuf_mark. rewrite Hk. cbn [marks]. apply nth_upd_same. exact Hl.
+Qed.
+
+Theorem lnum_refines loc s b e s1 : ex_region rvalid rfind loc s = (false, b, e, s1) -> ex_zero loc b e = false ->
+  let s' := fst (ec_lnum rvalid rfind loc s) in
+  texts s' = texts s /\ xrow s' = xrow s1 /\ out s' = ONum e :: out s1.
+Proof.
+  intros E Hz. unfold ec_lnum. rewrite E, Hz. cbn [orb fst]. split; [apply (region_texts _ _ _ _ _ _ E)|]. split; reflexivity.
+Qed.
 End ExR.
 
 Lemma marks_track_main rvalid rfind filter readfile curpath data input wa n fuel :
